@@ -1,7 +1,7 @@
 (* C13 correspondence. One case = one (construction, depth, master seed, period) state of
-   a real key:  Case13 variant d k t seed_after buf derivable
+   a real key:  Case13 variant d k t refused seed_after buf derivable
      seed_after = the caller's seed bytes after keygen, buf = the key buffer slots after
-     t updates (both classified against the independently recomputed key tree),
+     t updates and `refused` further update() calls that returned an error (both classified against the independently recomputed key tree),
      derivable = the periods whose leaf secret the harness could compute by brute force
      from the real buffer (every slot expanded through the seed-splitting hashes).
    The model must predict the same slots and the same derivable set. *)
@@ -9,19 +9,32 @@ From PV Require Export Lib.Base Kes.Model Kes.Interp C13.Model.
 Open Scope Z_scope.
 
 Inductive case : Type :=
-  Case13 (variant d k t : Z) (seed_after : cls) (buf : list cls) (derivable_periods : list Z).
+  Case13 (variant d k t refused : Z) (seed_after : cls) (buf : list cls) (derivable_periods : list Z).
 
-Definition model_state (d : nat) (k : Z) (t : nat) : option (term * list term * list Z) :=
+Fixpoint refused_calls (d : nat) (j : nat) (k : key) : option key :=
+  match j with
+  | O => Some k
+  | S j' => match refused_calls d j' k with
+            | None => None
+            | Some k' => let '(k'', ok) := update d k' in if ok then None else Some k''
+            end
+  end.
+
+Definition model_state (d : nat) (k : Z) (t refused : nat) : option (term * list term * list Z) :=
   let '(k0, _, sa) := keygen d (repeat junk (ksize d)) (Master k) in
   match updates d t k0 with
   | None => None
-  | Some ky => Some (sa, key_buf ky, derivable d (Master k) (key_buf ky))
+  | Some ky0 =>
+      match refused_calls d refused ky0 with
+      | None => None
+      | Some ky => Some (sa, key_buf ky, derivable d (Master k) (key_buf ky))
+      end
   end.
 
 Definition case_ok (c : case) : bool :=
-  let '(Case13 variant d k t seed_after buf der) := c in
+  let '(Case13 variant d k t refused seed_after buf der) := c in
   let dn := Z.to_nat d in
-  match model_state dn k (Z.to_nat t) with
+  match model_state dn k (Z.to_nat t) (Z.to_nat refused) with
   | None => false
   | Some (sa', buf', der') =>
       term_eqb sa' (interp dn seed_after) && list_eqb term_eqb buf' (map (interp dn) buf)
@@ -31,8 +44,8 @@ Definition case_ok (c : case) : bool :=
   end.
 
 Definition case_out (c : case) :=
-  let '(Case13 variant d k t seed_after buf der) := c in
-  match model_state (Z.to_nat d) k (Z.to_nat t) with
+  let '(Case13 variant d k t refused seed_after buf der) := c in
+  match model_state (Z.to_nat d) k (Z.to_nat t) (Z.to_nat refused) with
   | None => None
   | Some (sa', buf', der') => Some (abstr sa', map abstr buf', der')
   end.
